@@ -77,10 +77,10 @@ func (m *memStore) GetCurrent(id string) (*dkg.DBState, error) {
 	}
 	return m.cur, nil
 }
-func (m *memStore) GetFinished(string) (*dkg.DBState, error)     { return m.fin, nil }
-func (m *memStore) SaveCurrent(_ string, s *dkg.DBState) error   { m.cur = s; return nil }
-func (m *memStore) SaveFinished(_ string, s *dkg.DBState) error  { m.cur, m.fin = s, s; return nil }
-func (m *memStore) Close() error                                 { return nil }
+func (m *memStore) GetFinished(string) (*dkg.DBState, error)                  { return m.fin, nil }
+func (m *memStore) SaveCurrent(_ string, s *dkg.DBState) error                { m.cur = s; return nil }
+func (m *memStore) SaveFinished(_ string, s *dkg.DBState) error               { m.cur, m.fin = s, s; return nil }
+func (m *memStore) Close() error                                              { return nil }
 func (m *memStore) MigrateFromGroupfile(string, *key.Group, *key.Share) error { return nil }
 
 type ident struct{ kp *key.Pair }
@@ -205,10 +205,10 @@ func (g *pureGen) pick(pl *pool, n int) []*pdkg.Participant {
 // ---- shared generator of DBStates ----
 
 type genState struct {
-	st   *dkg.DBState
-	pl   *pool
-	all  []*pdkg.Participant
-	bad  bool // contains a key that does not unmarshal
+	st  *dkg.DBState
+	pl  *pool
+	all []*pdkg.Participant
+	bad bool // contains a key that does not unmarshal
 }
 
 func (g *pureGen) oldGroup(pl *pool, beaconID string) *key.Group {
@@ -434,7 +434,7 @@ func (g *pureGen) asGroupCase(malformed bool) {
 	}
 	_ = badScheme
 	_ = outOfRange
-	line := fmt.Sprintf("DAsGroup %s %s %s %s %s %s %s %s", cStr(crypto.DefaultSchemeID), cState(in), cBytesList(cm), cIdx(idxs), emit.Z(ttime), cHashIn(hin), emit.Bytes(hout), out)
+	line := fmt.Sprintf("DAsGroup %s %s %s %s %s %s %s %s", cStr(crypto.DefaultSchemeID), cState(in), cBytesList(cm), cIdx(idxs), emit.Z(ttime), cHashIn(hin), cB(hout), out)
 	g.add(line, fmt.Sprintf("DAsGroup n=%d qual=%v scheme=%q seed=%d %s", n, idxs, st.SchemeID, len(in.GenesisSeed), bucket), bucket, line, len(idxs) >= 2)
 }
 
@@ -473,6 +473,16 @@ func (g *pureGen) monitorAsGroup(in pState, commits [][]byte, idxs []int64, ttim
 	}
 	if len(pg.Nodes) != len(idxs) {
 		g.rep.Fail("group-size", "group does not have one node per QUAL member", ctx)
+	}
+	want := append([]int64{}, idxs...)
+	sortInts(want)
+	var have []int64
+	for _, nd := range pg.Nodes {
+		have = append(have, int64(nd.Index))
+	}
+	sortInts(have)
+	if fmt.Sprint(want) != fmt.Sprint(have) {
+		g.rep.Fail("group-not-qual", "the indices of the group's nodes are not the QUAL indices", ctx)
 	}
 	for _, nd := range pg.Nodes {
 		if rank(nd.Key) != int(nd.Index) {
